@@ -99,6 +99,7 @@ type c08Sensor struct {
 	constK     int
 	constAvg0  float64
 	reported   map[string]bool
+	execFault  string
 	polls      int
 	failedPoll int
 }
@@ -135,6 +136,12 @@ func (o *c08Oracle) OnEvent(ev *kernel.Event) {
 		} else {
 			s.pollOK, s.pollVal = true, float64(ev.Val)
 		}
+	case ev.Kind == "exec" && ev.Flags&kernel.FSensorMon != 0 && ev.Err == "":
+		// the permission check passed; remember which fault (if any) the world planted for this execution:
+		// the poll's outcome is judged from the fault plan, not from what SafeCmdExecution reports
+		if tg := o.st.W.TargetOfExe(ev.Site); tg != nil && tg.Kind == "sensor" {
+			o.s[tg.ID].execFault = ev.Fault
+		}
 	case ev.Kind == "exec" && ev.Flags&kernel.FSensorMon != 0 && ev.Err != "":
 		// the command was not started (permission check) or an injected timeout
 		if tg := o.st.W.TargetOfExe(ev.Site); tg != nil && tg.Kind == "sensor" {
@@ -151,6 +158,13 @@ func (o *c08Oracle) OnEvent(ev *kernel.Event) {
 		}
 		s := o.s[tg.ID]
 		s.pollSeen = true
+		if s.execFault != "" {
+			// every planted command fault (exit != 0 with or without output, killed, garbage, nan/inf,
+			// empty, huge) makes the poll a failed one, whatever the call returned
+			s.pollOK, s.pollWhy = false, s.execFault
+			s.execFault = ""
+			return
+		}
 		if ev.Err != "" {
 			s.pollOK, s.pollWhy = false, "exec-failed"
 			return
